@@ -77,18 +77,18 @@ Definition model_passes (d : def) (lg : log) : bool :=
 
 Definition check_log (d : def) (x : log * mres * bool) : bool :=
   let '(lg, mobs, pobs) := x in
-  mres_eqb (legacy_match d lg) mobs && Bool.eqb (model_passes d lg) pobs.
+  mres_eqb (match_def d lg) mobs && Bool.eqb (model_passes d lg) pobs.
 
 Definition check_case (c : case) : list N :=
   match c with
   | CDef id d vobs mobs fobs logs =>
-      if Bool.eqb (legacy_validate d) vobs
+      if Bool.eqb (validate d) vobs
          && optbytes_eqb (marshal d) mobs
          && fres_eqb (to_filter d) fobs
          && forallb (check_log d) logs
       then [] else [id]
   | CDecode id b obs =>
-      if ures_eqb (legacy_unmarshal b) obs then [] else [id]
+      if ures_eqb (unmarshal b) obs then [] else [id]
   end.
 
 Definition mismatches (cs : list case) : list N := flat_map check_case cs.
